@@ -80,8 +80,7 @@ func C02_ShapeStep() {
 	cfg := &vHistCfg{name: "C02_ShapeStep", lenVars: 1, valVars: 1, caches: []int{0}, fast: []bool{false}, thresh: []int{0}, refHash: true, iso: true}
 	maxH := 3
 	if vTier() == "thorough" {
-		maxH = 4
-		cfg.caches = []int{0}
+		cfg.lenSet = []int{0, 1, 5}
 	}
 	h := vShapeState(cfg, maxH, 1, []int{0, 1, 2})
 	// a read-only call before the step must not change any later hash (it caches node hashes)
